@@ -220,6 +220,106 @@ func genC16(c *Ctx) {
 	}
 }
 
+var c16SeqN int
+
+// c16.seq: a sequence of requests by ONE client through the complete router, the ACL set once before the first
+// request and optionally replaced in the middle: the decision for a request must not depend on what the same
+// client was served before (no grant may be remembered across methods, paths or ACL changes).
+func runC16Seq(c *Ctx, in M) (out interface{}) {
+	defer func() {
+		if r := recover(); r != nil {
+			out = "panic:" + fmt.Sprint(r)
+		}
+	}()
+	h := c16Hub(c)
+	c16SeqN++
+	sub := fmt.Sprintf("client-seq-%d", c16SeqN)
+	h.Core.SetClientAccessControls(sub, toAcl(getl(in, "acl")))
+	tok := c16Token(h, gets(in, "token"), sub)
+	res := []interface{}{}
+	for i, x := range getl(in, "reqs") {
+		r := x.([]interface{})
+		if ch := getm(in, "change"); ch != nil && geti(ch, "at") == i {
+			if getb(ch, "delete") {
+				h.Core.DeleteClientAccessControls(sub)
+			} else {
+				h.Core.SetClientAccessControls(sub, toAcl(getl(ch, "acl")))
+			}
+		}
+		req := httptest.NewRequest(r[0].(string), r[1].(string), strings.NewReader(""))
+		if tok != "" {
+			req.Header.Set("Authorization", tok)
+		}
+		rec := httptest.NewRecorder()
+		h.Echo.ServeHTTP(rec, req)
+		switch rec.Code {
+		case http.StatusUnauthorized:
+			res = append(res, "401")
+		case http.StatusForbidden:
+			res = append(res, "403")
+		default:
+			res = append(res, "served")
+		}
+	}
+	h.Core.DeleteClientAccessControls(sub)
+	return res
+}
+
+func genC16Seq(c *Ctx) {
+	h := c16Hub(c)
+	routes := c16Routes(h)
+	byPath := map[string][]string{}
+	paths := []string{}
+	for _, r := range routes {
+		if strings.HasPrefix(r[1], "/datasets") || strings.HasPrefix(r[1], "/job") || strings.HasPrefix(r[1], "/query") || strings.HasPrefix(r[1], "/namespaces") {
+			if len(byPath[r[1]]) == 0 {
+				paths = append(paths, r[1])
+			}
+			byPath[r[1]] = append(byPath[r[1]], r[0])
+		}
+	}
+	n := map[string]int{"quick": 300, "thorough": 3000}[c.Tier]
+	if n == 0 {
+		n = 100
+	}
+	acl := func(p string) []M {
+		switch c.Rng.Intn(6) {
+		case 0:
+			return []M{{"r": p, "a": "read", "d": false}}
+		case 1:
+			return []M{{"r": p, "a": "write", "d": false}}
+		case 2:
+			return []M{{"r": "/*", "a": "read", "d": false}}
+		case 3:
+			return []M{{"r": "/*", "a": "write", "d": false}, {"r": p, "a": "write", "d": true}}
+		case 4:
+			return []M{{"r": p + "*", "a": "read", "d": false}, {"r": "/jobs", "a": "write", "d": false}}
+		}
+		return []M{}
+	}
+	for i := 0; i < n; i++ {
+		// a few paths, every registered method of each, in random order, with repeats
+		ps := []string{paths[c.Rng.Intn(len(paths))], paths[c.Rng.Intn(len(paths))]}
+		reqs := [][]string{}
+		for k := 0; k < 4+c.Rng.Intn(8); k++ {
+			p := ps[c.Rng.Intn(2)]
+			ms := byPath[p]
+			reqs = append(reqs, []string{ms[c.Rng.Intn(len(ms))], p})
+		}
+		in := M{"acl": acl(ps[0]), "token": "client", "reqs": reqs}
+		if c.Rng.Intn(3) == 0 {
+			ch := M{"at": 1 + c.Rng.Intn(len(reqs)-1)}
+			if c.Rng.Intn(3) == 0 {
+				ch["delete"] = true
+			} else {
+				ch["acl"] = acl(ps[c.Rng.Intn(2)])
+			}
+			in["change"] = ch
+		}
+		c.Do("c16.seq", in)
+	}
+}
+
 var c16PersistN int
 
 // c16.persist: client registrations and ACLs through ServiceCore, with restarts (a new ServiceCore
@@ -310,6 +410,8 @@ func init() {
 	register("c16p", genC16Persist)
 	registerKind("c16.persist", runC16Persist)
 	register("c16", genC16)
+	register("c16seq", genC16Seq)
 	registerKind("c16.acl", runC16Acl)
 	registerKind("c16.http", runC16Http)
+	registerKind("c16.seq", runC16Seq)
 }
